@@ -69,7 +69,10 @@ impl ProtocolError {
             | Self::RateLimited { .. }
             | Self::ServiceUnavailable
             | Self::Timeout => true,
-            Self::Http(e) => e.is_timeout() || e.is_connect(),
+            // is_body / is_decode: the connection broke (or went silent) while the response
+            // body was being read - reqwest reports that as a body or "error decoding
+            // response body" error - which is as transient as a refused connection
+            Self::Http(e) => e.is_timeout() || e.is_connect() || e.is_body() || e.is_decode(),
             Self::HttpStatus(status) => {
                 matches!(
                     status,
